@@ -152,6 +152,23 @@ def saveEfun (pol : Policy) (ex : List CStr) (a : CStr) : List Ev :=
              (if lookup ex P = some .dir ∨ P.getLast? = some '/' then [.fs "unlink" true tmp] else [])
          else [])
 
+/-- `ed (a)` by an interactive user (`ed_start`: valid_read, `doread`), then the editor command `w b`
+    (`getfn (1)`: a name starting with '/' goes to valid_write, `dowrite`) and `Q` -/
+def edWrite (pol : Policy) (b : CStr) (loaded : Bool) : List Ev :=
+  if b.head? = some '/' then
+    let (e2, r2) := ask pol true b "ed_start"
+    e2 ++ (match r2 with
+      | none => []
+      | some Q => if loaded then [Ev.fs "fopen" true Q] else [])
+  else []
+
+def edEfun (pol : Policy) (ex : List CStr) (a b : CStr) : List Ev :=
+  let (e1, r1) := ask pol false a "ed_start"
+  match r1 with
+  | none => e1 ++ edWrite pol b false
+  | some P =>                                       -- `w` writes only a non-empty buffer (deflt (1, P_LASTLN))
+    e1 ++ Ev.fs "fopen" false P :: edWrite pol b (decide (lookup ex P = some .file))
+
 /-- one efun call -/
 def efunEvents (pol : Policy) (ex : List CStr) (efun : String) (a b : CStr) : List Ev :=
   match efun with
@@ -176,6 +193,7 @@ def efunEvents (pol : Policy) (ex : List CStr) (efun : String) (a b : CStr) : Li
   | "link" => .note s!"valid_link {showP a} {showP b}" :: renameEfun pol ex true a b   -- master valid_link first
   | "cp" => cpEfun pol ex a b
   | "save_object" => saveEfun pol ex a
+  | "ed" => edEfun pol ex a b
   | _ => [.note s!"badefun {efun}"]
 
 /-! ### compiler: load_object, #include, inherit -/
